@@ -71,7 +71,7 @@ def jws_produce(path, protected, header, payload, jkey, algorithms):
 def jws_consume(path, token, jkey, algorithms, payload=None, registry=None):
     """Consume with joserfc -> Res(value=(payload bytes, merged headers list))"""
     from joserfc import jws, rfc7797
-    kw = {"algorithms": algorithms} if registry is None else {"registry": registry}
+    kw = {"algorithms": algorithms} if registry is None else ({"registry": registry} if algorithms is None else {"registry": registry, "algorithms": algorithms})
 
     def run():
         if path == "compact":
@@ -130,7 +130,7 @@ def jwe_encrypt(form, protected, plaintext, jkey, algorithms, unprotected=None, 
                 sender_key=None, recipients=None, registry=None):
     """Encrypt with joserfc. recipients (general only): list of (header, jkey[, sender]). -> Res(token)"""
     from joserfc import jwe
-    kw = {"algorithms": algorithms} if registry is None else {"registry": registry}
+    kw = {"algorithms": algorithms} if registry is None else ({"registry": registry} if algorithms is None else {"registry": registry, "algorithms": algorithms})
 
     def run():
         if form == "compact":
@@ -155,7 +155,7 @@ def jwe_encrypt(form, protected, plaintext, jkey, algorithms, unprotected=None, 
 def jwe_decrypt(token, jkey, algorithms, sender_key=None, registry=None):
     """Decrypt with joserfc -> Res(value=(plaintext, protected, unprotected, [recipient headers], aad))"""
     from joserfc import jwe
-    kw = {"algorithms": algorithms} if registry is None else {"registry": registry}
+    kw = {"algorithms": algorithms} if registry is None else ({"registry": registry} if algorithms is None else {"registry": registry, "algorithms": algorithms})
 
     def run():
         if isinstance(token, (str, bytes)):
